@@ -209,10 +209,19 @@ NUM_GRAY = [INF, -INF, NAN]
 DATE_VALUES = ['2000-01-01', '2000-01-01 00:00:00', '2000-01-01T12:34:56',
                '1999-12-31 23:59:59.999999', '2000-01-01 00:00:00.000001',
                '2000-01-01 00:00:00.500000']
+DATE_VALUES += ['2000-01-01 00:00:00.000249', '2000-01-01 00:00:00.001001',
+                '2000-01-01 00:00:00+05:30',
+                '1999-12-31 23:59:59.999999-08:00',
+                '2000-01-01T00:00:00.000249+00:00']
 DATE_VALUES_LITE = ['2000-01-01', '1999-12-31 23:59:59.999999']
 DATE_GRAY = ['2000-01-01 00:00:00.5', '2000-01-01 00:00:00.123456789',
              '2000/01/01', '2000-1-1', '2000-02-30', 'not a date',
-             '2000-01-01 00:00:00+00:00', '2000-01-01T00:00:00Z']
+             '2000-01-01T00:00:00Z', '2000-01-01 00:00:00+0530']
+# 1..5 and 7 fractional digits (how '.5' is read is the known gray zone),
+# without and with a UTC offset
+DATE_GRAY += ['2000-01-01 00:00:00.' + f + o
+              for f in ('25', '125', '0625', '00001', '0002490')
+              for o in ('', '+05:30')] + ['2000-01-01 00:00:00.5-08:00']
 TYPE_VALUES = ['bool', 'int', 'real', 'date', 'string', ['int', 'real'],
                ['real', 'int'], ['date'], ['string', 'bool'], [], None]
 TYPE_GRAY = ['float', ['int', 'number'], 7]
@@ -533,6 +542,85 @@ def singles_named(tier):
             yield {'fields': {name: dd['fields']['a']}}
 
 
+# JSON-structural characters (plus space and newline): every two-character
+# combination occurs inside a string of every carrier
+STRUCT_CHARS = ['{', '}', '[', ']', ',', ':', '"', '\\', '/', ' ', '\n']
+JSON_LOOKALIKES = ['{"a": 1,}', '[1,]', 'null', 'true', '{"fields": null}',
+                   '"', '\\"', '",\n    "b": "', '[a, ]', '{x,}', ', ]',
+                   ',\n}', '\\u0041', '\\\\', '//', '/*,]*/']
+# valid expressions that contain such sequences, with strings they match
+REX_WITH_SAMPLES = [
+    (['^\\d{2,}$'], ['123', '1']),
+    (['^[0-9,]+$'], ['1,000', 'x']),
+    (['^[,}]$', '^[{,]$'], [',', '}', '{', 'x']),
+    (['^a{1,}b$'], ['aab', 'b']),
+    (['^[a-z ,]+$'], ['a, b', 'A']),
+    (['^[",]$'], ['"', ',', 'x']),
+    (['^\\[,\\]$'], ['[,]', '[]']),
+    (['^\\{\\}$', '^:$'], ['{}', ':', ';']),
+    (['^"[^"]*",$'], ['"a",', '"a"']),
+    (['^/\\\\/$'], ['/\\/', '//']),
+]
+
+
+def string_contents():
+    for a in STRUCT_CHARS:
+        for b in STRUCT_CHARS:
+            yield a + b
+    for x in JSON_LOOKALIKES:
+        yield x
+
+
+def string_cases(tier):
+    """S0: every string of the content alphabet in every carrier: field name,
+    allowed value (alone and embedded), metadata values; and as an expression.
+    `samples` become an extra battery frame (the document's own strings)."""
+    for x in string_contents():
+        yield ({'creation_metadata': {'source': x, 'dataset': 'd' + x},
+                'fields': {x: {'type': 'string',
+                               'allowed_values': [x, 'p' + x + 'q']}}},
+               [x, 'p' + x + 'q', 'zz'])
+        yield ({'fields': {'a': {'type': 'string', 'rex': [x]}}},
+               [x, 'zz'])
+    for rexes, samples in REX_WITH_SAMPLES:
+        yield ({'fields': {'a': {'type': 'string', 'rex': rexes}}}, samples)
+        yield ({'fields': {'a': {'type': 'string', 'rex': rexes,
+                                 'allowed_values': samples}}}, samples)
+
+
+# documents of the rewrite histories (W0); the first two have the same length
+REWRITE_DOCS = [
+    {'fields': {'a': {'type': 'int', 'min': 1}}},
+    {'fields': {'a': {'type': 'int', 'min': 2}}},
+    {'fields': {'a': {'type': 'int', 'max': 2, 'sign': 'positive'}}},
+    {'fields': {'a': {'type': 'string', 'rex': ['^\\d{2,}$']}}},
+    {'fields': {}},
+]
+LOAD_KINDS = ['load', 'verify', 'detect']
+
+
+def rewrite_histories(tier):
+    """every history of 1..2 steps over all documents x load kinds, and of 3
+    steps over documents {0, 1, 3}; a step = (write document to THE path,
+    load it that way)."""
+    steps_all = [[d, k] for d in range(len(REWRITE_DOCS))
+                 for k in range(len(LOAD_KINDS))]
+    steps_3 = [[d, k] for d in (0, 1, 3) for k in range(len(LOAD_KINDS))]
+    for s1 in steps_all:
+        yield [s1]
+    for s1 in steps_all:
+        for s2 in steps_all:
+            yield [s1, s2]
+    for s1 in steps_3:
+        for s2 in steps_3:
+            for s3 in steps_3:
+                yield [s1, s2, s3]
+
+
+FRACTION_BATCH = 1000
+FRACTION_BASE = '2000-01-01 00:00:00'
+
+
 def render(doc, form):
     if form == 'indent4':
         return json.dumps(doc, indent=4, ensure_ascii=False) + '\n'
@@ -602,6 +690,43 @@ def has_linesep(x):
     if isinstance(x, dict):
         return any(has_linesep(k) or has_linesep(v) for k, v in x.items())
     return False
+
+
+def snapshot(x):
+    """type-sensitive, order-sensitive canonical form of a (supposedly plain
+    JSON) value; anything that is not plain JSON data shows up as its type"""
+    if isinstance(x, dict):
+        return ('{', type(x).__name__,
+                tuple((snapshot(k), snapshot(v)) for k, v in x.items()))
+    if isinstance(x, (list, tuple)):
+        return ('[', type(x).__name__, tuple(snapshot(v) for v in x))
+    if isinstance(x, float):
+        return ('float', repr(x))
+    if x is None or isinstance(x, (bool, int, str)):
+        return (type(x).__name__, x)
+    return ('NOT-JSON', type(x).__name__, repr(x)[:60])
+
+
+def snapshot_diff(a, b, path='$'):
+    """path and kind of the first difference between two snapshots"""
+    if a == b:
+        return None
+    if a[0] in '{[' and b[0] == a[0] and a[1] == b[1] \
+            and len(a[2]) == len(b[2]):
+        for i, (x, y) in enumerate(zip(a[2], b[2])):
+            if x != y:
+                if a[0] == '{':
+                    if x[0] != y[0]:
+                        return path, 'key-changed'
+                    return snapshot_diff(x[1], y[1],
+                                         '%s.%s' % (path, x[0][1]))
+                return snapshot_diff(x, y, '%s[%d]' % (path, i))
+    if b[0] == 'NOT-JSON':
+        return path, 'became-%s' % b[1]
+    if a[0] in '{[' and b[0] == a[0]:
+        return path, 'entries-added-or-removed' if a[1] == b[1] \
+            else 'container-type-changed'
+    return path, 'value-changed'
 
 
 def bk(kind):
@@ -686,6 +811,15 @@ class C09(Check):
             ('H5-gray', 'outside the documented format: routes must agree'),
             ('D1-frames', 'discovered: field names, many-category columns, '
                           'two-column frames'),
+            ('S0-strings', 'every 2-character string over JSON-structural '
+                           'characters, and JSON look-alikes, as field name, '
+                           'allowed value, metadata value and expression'),
+            ('W0-rewrite', 'histories: one path re-written and re-loaded '
+                           '(load / verify_df / detect_df), against a fresh '
+                           'path and the dictionary route'),
+            ('F0-fraction', 'date bounds at every one of the 10^6 '
+                            'microsecond values of one second, without and '
+                            'with a UTC offset (1000 fields per document)'),
         ]
         if tier == 'thorough':
             L += [
@@ -717,6 +851,16 @@ class C09(Check):
         elif layer == 'H5-gray':
             for d in gray_docs(tier):
                 yield {'k': 'hand', 'doc': J(d), 'form': 'indent4'}
+        elif layer == 'S0-strings':
+            for d, samples in string_cases(tier):
+                yield {'k': 'hand', 'doc': J(d), 'form': 'indent4',
+                       'samples': samples}
+        elif layer == 'W0-rewrite':
+            for h in rewrite_histories(tier):
+                yield {'k': 'rewrite', 'hist': h}
+        elif layer == 'F0-fraction':
+            for start in range(0, 1000000, FRACTION_BATCH):
+                yield {'k': 'frac', 'start': start, 'n': FRACTION_BATCH}
         elif layer == 'T1-named':
             for d in singles_named(tier):
                 yield {'k': 'hand', 'doc': J(d), 'form': 'indent4'}
@@ -802,6 +946,8 @@ class C09(Check):
         os.chdir(self.sandbox)
         self.bcols = battery_columns()
         self.bframes = {}
+        self.ncase = 0
+        self.cdir = '.'
 
     def teardown_worker(self):
         try:
@@ -814,8 +960,15 @@ class C09(Check):
         self.sandbox = None
 
     # --------------------------------------------------- real operations
+    def P(self, fname):
+        """real path of a scratch file of the current case.  Every case has
+        its own directory, so no path string is ever seen by tdda in two
+        cases: a case behaves in a long-lived worker exactly as when it is
+        replayed alone, whatever tdda may remember about paths."""
+        return os.path.join(self.cdir, fname)
+
     def _write(self, fname, text):
-        with open(fname, 'wb') as f:
+        with open(self.P(fname), 'wb') as f:
             f.write(text.encode('utf-8', 'surrogatepass'))
 
     def apply_op(self, op, text):
@@ -828,10 +981,10 @@ class C09(Check):
                 dc.initialize_from_dict(d)
             elif op == 'path':
                 self._write('c.tdda', text)
-                dc = DC(loadpath='c.tdda')
+                dc = DC(loadpath=self.P('c.tdda'))
             else:
                 self._write('w.tdda', text)
-                dc = DC(loadpath='w.tdda')
+                dc = DC(loadpath=self.P('w.tdda'))
         except Exception as e:
             return 'load', e
         try:
@@ -863,22 +1016,33 @@ class C09(Check):
             self.bframes[key] = out
         return self.bframes[key]
 
-    def verdicts(self, route, arg, names):
+    def verdicts(self, route, arg, names, samples=None):
         """[(frame id, verdict map | 'EXC:Type')] for one route.
         route: 'dict' (arg = dictionary), 'path' (arg = text),
-        'object' (arg = DatasetConstraints)."""
+        'object' (arg = DatasetConstraints).  The dictionary route hands
+        the SAME dictionary object to every call (as a caller holding one
+        in-memory dictionary does); self.dict_damage says how it differs
+        from its snapshot afterwards (None = untouched)."""
         out = []
+        self.dict_damage = None
         if route == 'path':
             self._write('v.tdda', arg)
-        for cid, df in self.frames_for(names):
+        if route == 'dict':
+            thedict = json.loads(json.dumps(arg))
+            before = snapshot(thedict)
+        frames = self.frames_for(names)
+        if samples:
+            frames = frames + [('own', self.pd.DataFrame(dict(
+                (n, self.pd.Series(list(samples), dtype=object))
+                for n in names)))]
+        for cid, df in frames:
             d = df.copy()
             eps = EPSILON if cid == 'ffuzz' else None
             try:
                 if route == 'dict':
-                    v = self.pdc.verify_df(d, json.loads(json.dumps(arg)),
-                                           epsilon=eps)
+                    v = self.pdc.verify_df(d, thedict, epsilon=eps)
                 elif route == 'path':
-                    v = self.pdc.verify_df(d, 'v.tdda', epsilon=eps)
+                    v = self.pdc.verify_df(d, self.P('v.tdda'), epsilon=eps)
                 else:
                     pdv = self.pdc.PandasConstraintVerifier(
                         d, epsilon=eps, type_checking=None)
@@ -892,6 +1056,8 @@ class C09(Check):
                                   'failures': int(v.failures)}))
             except Exception as e:
                 out.append((cid, 'EXC:' + type(e).__name__))
+        if route == 'dict':
+            self.dict_damage = snapshot_diff(before, snapshot(thedict))
         return out
 
     # ------------------------------------------------------------ run_case
@@ -900,10 +1066,21 @@ class C09(Check):
         buf_o, buf_e = io.StringIO(), io.StringIO()
         with contextlib.redirect_stdout(buf_o), \
                 contextlib.redirect_stderr(buf_e):
-            if case['k'] == 'hand':
-                self.run_hand(R, case)
-            else:
-                self.run_disc(R, case)
+            self.ncase += 1
+            self.cdir = 'k%d' % self.ncase
+            os.mkdir(self.cdir)
+            try:
+                if case['k'] == 'hand':
+                    self.run_hand(R, case)
+                elif case['k'] == 'rewrite':
+                    self.run_rewrite(R, case)
+                elif case['k'] == 'frac':
+                    self.run_fraction(R, case)
+                else:
+                    self.run_disc(R, case)
+            finally:
+                shutil.rmtree(self.cdir, ignore_errors=True)
+                self.cdir = '.'
         # one report per signature and case
         seen, vs = set(), []
         for v in R.violations:
@@ -924,6 +1101,7 @@ class C09(Check):
         valid = True
         first = None
         start_results = {}
+        start_sections = {}
         R.states += 1
         while frontier:
             T = frontier.pop(0)
@@ -984,6 +1162,8 @@ class C09(Check):
                            {'written': T2[:400]}, {'op': op, 'depth': depth})
                     continue
                 sections.setdefault(s2, (op, depth))
+                if depth == 0:
+                    start_sections[op] = s2
                 # -- fixpoint on tdda-written texts
                 if written and Tsec is not None:
                     if s2 != Tsec:
@@ -1040,6 +1220,16 @@ class C09(Check):
                 for op in OPS), 'path-dict-reserialised-behave-the-same',
                 {'start': start[:500], 'results': dict(
                     (op, list(v)) for op, v in start_results.items())})
+        if len(set(start_sections.values())) > 1:
+            base = start_sections.get('dict')
+            other = [op for op in OPS if op in start_sections
+                     and start_sections[op] != base]
+            if base is not None and other:
+                dcls, dfield = self.diff_class(base, start_sections[other[0]])
+                R.viol('routes-disagree:text:dict!=%s:%s' % (other[0], dcls),
+                       'path-dict-reserialised-behave-the-same',
+                       {'start': start[:500], 'dict': base[:400],
+                        other[0]: start_sections[other[0]][:400]})
         rejected = all(k[0] == 'load' for k in start_results.values())
         R.out('states:%d' % len(seen))
         return {'first': first, 'rejected': rejected,
@@ -1100,6 +1290,7 @@ class C09(Check):
                                   else 'accepted'))
         if info['first'] is None or not info['loadable']:
             R.out('no-text')
+            self.reuse(R, doc, T0, names or ['a'])
             return
         T1 = info['first']
         nexp = len(spec.expected_constraints(doc))
@@ -1135,13 +1326,24 @@ class C09(Check):
         if not names:
             names = ['a']
         names = names[:2]
-        A = self.verdicts('dict', doc, names)
-        B = self.verdicts('path', T0, names)
+        samples = case.get('samples')
+        self.reuse(R, doc, T0, names)
+        A = self.verdicts('dict', doc, names, samples)
+        damaged = self.dict_damage
+        if damaged:
+            # everything after the first call saw a different dictionary:
+            # comparing those verdicts would only repeat this finding
+            R.viol('caller-dict-modified:verify_df:%s' % damaged[1],
+                   'callers-dictionary-is-not-modified',
+                   {'where': damaged[0], 'what': damaged[1],
+                    'input': T0[:500]})
+            return
+        B = self.verdicts('path', T0, names, samples)
         n = len(A)
         R.ev(2 * n, checked=n)
         self.compare_routes(R, 'dict', A, 'path', B, doc, T0, T1)
         if info['sections'] == 1 and info['valid'] and not R.violations:
-            C = self.verdicts('path', T1, names)
+            C = self.verdicts('path', T1, names, samples)
             R.ev(n)
             self.compare_routes(R, 'dict', A, 'reserialised', C, doc, T0, T1,
                                 roottag=tag if tag != 'hand' else None)
@@ -1150,13 +1352,14 @@ class C09(Check):
             # invalid or unloadable: its verdicts would only repeat that
             R.out('battery:reserialised-skipped')
         if spec.has_ignorable(doc):
-            E = self.verdicts('dict', spec.strip_ignorable(doc), names)
+            E = self.verdicts('dict', spec.strip_ignorable(doc), names,
+                              samples)
             R.ev(n)
             self.compare_routes(R, 'dict', A, 'ignorable-removed', E, doc,
                                 T0, T1, known_only=True)
         if spec.has_nulls(doc):
             nn = spec.strip_nulls(doc)
-            N = self.verdicts('dict', nn, names)
+            N = self.verdicts('dict', nn, names, samples)
             R.ev(n)
             self.compare_routes(R, 'dict', A, 'nulls-removed', N, doc, T0,
                                 T1, drop_null_kinds=True)
@@ -1165,6 +1368,192 @@ class C09(Check):
                 R.out('verify:' + m)
             else:
                 R.out('verdicts:p%d-f%d' % (m['passes'], m['failures']))
+
+    # ---- the same dictionary / the same path used more than once ---------
+    def reuse(self, R, doc, T0, names):
+        """One dictionary object handed to initialize_from_dict twice, then
+        to verify_df, detect_df, verify_df; one path loaded twice.  Clauses:
+        the caller's dictionary is not modified; a second use gives what the
+        first gave; loading does not change the file."""
+        DC = self.base.DatasetConstraints
+        names = (names or ['a'])[:2]
+        thedict = json.loads(json.dumps(doc))
+        before = snapshot(thedict)
+
+        def unchanged(api):
+            dmg = snapshot_diff(before, snapshot(thedict))
+            if dmg:
+                R.viol('caller-dict-modified:%s:%s' % (api, dmg[1]),
+                       'callers-dictionary-is-not-modified',
+                       {'api': api, 'where': dmg[0], 'what': dmg[1],
+                        'input': T0[:500]})
+            return not dmg
+
+        def init():
+            try:
+                dc = DC()
+                dc.initialize_from_dict(thedict)
+                return 'ok', dc.to_json()
+            except Exception as e:
+                return 'raises', type(e).__name__
+
+        r1 = init()
+        ok = unchanged('initialize_from_dict')
+        r2 = init()
+        R.ev(2)
+        if ok and r1 != r2:
+            R.viol('second-use-differs:initialize_from_dict',
+                   'second-use-of-a-dictionary-gives-the-same',
+                   {'first': list(r1)[:2], 'second': list(r2)[:2],
+                    'input': T0[:500]})
+        if not ok:
+            return
+        # verify_df, detect_df, verify_df with the same dictionary object
+        frame = self.frames_for(names)[0][1]
+
+        def ver(fn):
+            try:
+                v = fn(frame.copy(), thedict)
+                return dict((f, dict((k, plain(x)) for k, x in fr.items()))
+                            for f, fr in v.fields.items())
+            except Exception as e:
+                return 'EXC:' + type(e).__name__
+        v1 = ver(self.pdc.verify_df)
+        ok = unchanged('verify_df')
+        ver(self.pdc.detect_df)
+        ok = ok and unchanged('detect_df')
+        v2 = ver(self.pdc.verify_df)
+        R.ev(3)
+        if ok and v1 != v2:
+            R.viol('second-use-differs:verify_df',
+                   'second-use-of-a-dictionary-gives-the-same',
+                   {'first': v1, 'second': v2, 'input': T0[:500]})
+        # the same path loaded twice; the file is only read
+        self._write('p.tdda', T0)
+        with open(self.P('p.tdda'), 'rb') as f:
+            bytes0 = f.read()
+
+        def load():
+            try:
+                return 'ok', spec.split_fields_section(
+                    DC(loadpath=self.P('p.tdda')).to_json())[1]
+            except Exception as e:
+                return 'raises', type(e).__name__
+        p1, p2 = load(), load()
+        R.ev(2)
+        with open(self.P('p.tdda'), 'rb') as f:
+            bytes1 = f.read()
+        if p1 != p2:
+            R.viol('second-use-differs:load-by-path',
+                   'second-load-of-a-path-gives-the-same',
+                   {'first': list(p1), 'second': list(p2),
+                    'input': T0[:500]})
+        if bytes0 != bytes1:
+            R.viol('file-modified-by-load', 'loading-does-not-write',
+                   {'input': T0[:500]})
+
+    # ---- rewrite histories (E3, differential) --------------------------
+    def run_rewrite(self, R, case):
+        """History of (write document d to THE path, load it by kind k).
+        After every step the observation must equal (i) the same load of the
+        same content from a path never used before, and (ii) for kind
+        'load', the dictionary route - i.e. what a fresh process would see:
+        only the current content of the file counts."""
+        pd = self.pd
+        DC = self.base.DatasetConstraints
+        frame = pd.DataFrame({'a': pd.Series([1, 2, 3], dtype='int64')})
+        R.nontrivial = len(set(d for d, k in case['hist'])) > 1
+        R.states += 1
+
+        def observe(kind, path):
+            try:
+                if kind == 'load':
+                    return spec.split_fields_section(
+                        DC(loadpath=path).to_json())[1]
+                fn = self.pdc.verify_df if kind == 'verify' \
+                    else self.pdc.detect_df
+                v = fn(frame.copy(), path)
+                return dict((f, dict((k, plain(x)) for k, x in fr.items()))
+                            for f, fr in v.fields.items())
+            except Exception as e:
+                return 'EXC:' + type(e).__name__
+        for i, (di, ki) in enumerate(case['hist']):
+            kind = LOAD_KINDS[ki]
+            text = render(REWRITE_DOCS[di], 'indent4')
+            self._write('rw.tdda', text)
+            got = observe(kind, self.P('rw.tdda'))
+            self._write('fresh%d.tdda' % i, text)
+            want = observe(kind, self.P('fresh%d.tdda' % i))
+            R.ev(2, checked=1)
+            R.states += 1
+            ok = got == want
+            if ok and kind == 'load':
+                dc = DC()
+                dc.initialize_from_dict(json.loads(text))
+                ok = got == spec.split_fields_section(dc.to_json())[1]
+                R.ev()
+            R.out('rewrite:%s:%s' % (kind, 'current' if ok else 'STALE'))
+            if not ok:
+                prev = [LOAD_KINDS[k] for d, k in case['hist'][:i]]
+                R.viol('rewrite:stale:%s-after-%s' % (
+                    kind, '+'.join(sorted(set(prev))) or 'nothing'),
+                    'a-rewritten-path-loads-its-current-content',
+                    {'step': i, 'history': case['hist'],
+                     'file-now': text[:300], 'observed': got,
+                     'fresh-path': want}, {'step': i})
+                return
+
+    # ---- every microsecond ---------------------------------------------
+    def run_fraction(self, R, case):
+        """n date-typed fields; field i has min = base.ffffff and max = the
+        same with a UTC offset, ffffff = start+i: all in the spelling Python
+        writes a datetime in.  One load + to_json must keep every instant
+        (model: spec.parse_instant) and the text it wrote must reload to
+        itself."""
+        DC = self.base.DatasetConstraints
+        fields = {}
+        for us in range(case['start'], case['start'] + case['n']):
+            frac = ('.%06d' % us) if us else ''
+            fields['f%06d' % us] = {
+                'type': 'date', 'min': FRACTION_BASE + frac,
+                'max': FRACTION_BASE + frac + '+05:30'}
+        T0 = render({'fields': fields}, 'indent4')
+        R.nontrivial = True
+        R.states += 1
+        dc = DC()
+        dc.initialize_from_dict(json.loads(T0))
+        T1 = dc.to_json()
+        R.ev(1, checked=2 * case['n'])
+        if T1 == T0:
+            # identical text: same instants, and reloading it is reloading T0
+            R.out('fractions:text-identical')
+            return
+        R.out('fractions:text-differs')
+        bad = []
+        w = json.loads(T1).get('fields') or {}
+        for name, fc in fields.items():
+            for kind in ('min', 'max'):
+                wv = spec.constraint_value(w.get(name, {}).get(kind))[0]
+                r = spec.same_value(kind, fc[kind], wv, True)
+                if r is spec.UNSPEC:
+                    R.unspec += 1
+                elif not r:
+                    bad.append([fc[kind], wv])
+        if bad:
+            offs = sorted(set('with-offset' if b[0].endswith('+05:30')
+                              else 'naive' for b in bad))
+            R.viol('content:value-kept:bound:date-fraction:%s' %
+                   '+'.join(offs), 'written-text-value-kept',
+                   {'n_changed': len(bad), 'examples': bad[:6]})
+            return
+        dc2 = DC()
+        dc2.initialize_from_dict(json.loads(T1))
+        T2 = dc2.to_json()
+        R.ev()
+        if T2 != T1:
+            R.viol('fixpoint:bound:date-fraction',
+                   'reload-rewrites-identical-fields-text',
+                   {'n': case['n'], 'start': case['start']})
 
     def compare_routes(self, R, na, A, nb, B, doc, T0, T1, known_only=False,
                        drop_null_kinds=False, lenient_raises=False,
